@@ -49,7 +49,7 @@ def run(ctx):
     tasks += [(chk.random_shard, ('vf.props.c06:SPEC', ctx.shard_seed(100 + i), ctx.n(6000, 150000))) for i in range(16)]
     tasks += [(chk.history_shard, ('vf.props.c06:SPEC', 'vf.props.c07:SPEC32', ctx.shard_seed(300 + i), ctx.n(3000, 60000))) for i in range(4)]
     tasks += [(chk.corner_shard, ('vf.props.c06:SPEC', i, 16, ctx.shard_seed(500 + i), ctx.n(4, 40))) for i in range(16)]
-    for k, cn in enumerate(('v5', 'v7', 'v4')):
+    for k, cn in enumerate(('v5', 'v7', 'v4', 'v7-vfp')):
         tasks += [(chk.corner_shard, ('vf.props.c06:SPEC', i, 8, ctx.shard_seed(700 + 20 * k + i), ctx.n(2, 20), cn)) for i in range(8)]
     tasks += [(_e1p.shard_repeat, ('vf.props.c06:PLAN_REPEAT', ctx.shard_seed(900 + i), ctx.n(150, 3000))) for i in range(8)]
     tasks += [(chk.operand_path_shard, ('vf.props.c06:SPEC', i, 16, ctx.shard_seed(1000 + i), ctx.n(300, 3000))) for i in range(16)]
